@@ -54,7 +54,7 @@ PROPS = {
     ),
     "C04": dict(
         modules=['Gopki.Props.C04', 'Gopki.Props.C05', 'Gopki.Props.C02'],
-        theorems=['C02.C02_time_roundtrip', 'C04.C04_validity_reaches_the_der', 'C04.C04_instant_roundtrip', 'C04.C04_calendar_bijection', 'Calendar.civilFromDays_daysFromCivil', 'Calendar.wallOf_goDate_midnight', 'C04.C04_date_is_local_midnight', 'C04.C04_invalid_rejected', 'C04.C04_duration_grammar', 'C04.C04_duration_months_digits', 'C04.C04_utc_tag', 'C04.C04_inherit', 'Calendar.era_split', 'Calendar.yoe_table', 'Cal.mp_inv', 'Cal.doy_bounds', 'C05.model_defaults_eq_facts'],
+        theorems=['C02.C02_time_roundtrip', 'C04.C04_validity_reaches_the_der', 'C04.C04_duration_is_calendar_addition', 'C04.C04_goDate_wall', 'Calendar.addDate_calendar', 'C04.C04_instant_roundtrip', 'C04.C04_calendar_bijection', 'Calendar.civilFromDays_daysFromCivil', 'Calendar.wallOf_goDate_midnight', 'C04.C04_date_is_local_midnight', 'C04.C04_invalid_rejected', 'C04.C04_duration_grammar', 'C04.C04_duration_months_digits', 'C04.C04_utc_tag', 'C04.C04_inherit', 'Calendar.era_split', 'Calendar.yoe_table', 'Cal.mp_inv', 'Cal.doy_bounds', 'C05.model_defaults_eq_facts'],
         ops=["validity", "pki"],
         rule="validity: every calendar day of two years (thorough: 1950-2200) x rotating zone offsets x {from, until, from+duration, from+until}, boundary dates x 9 offsets x 15 durations, "
              "impossible dates, malformed durations, random combinations; non-trivial = well-formed input with at least one of from/until/duration",
@@ -160,7 +160,7 @@ PROPS = {
         assumptions=[],
     ),
     "C18": dict(
-        modules=["Gopki.Props.C18"], theorems=['C18.C18_isConsistent_iff', 'Forest.bfs_main', 'Forest.consistent_iff'], ops=["open", "cli"],
+        modules=["Gopki.Props.C18"], theorems=['C18.C18_isConsistent_iff', 'C18.C18_alias_and_artifact_path', 'C18.C18_config_names_have_artifacts', 'Paths.splitLast_append', 'Forest.bfs_main', 'Forest.consistent_iff'], ops=["open", "cli"],
         rule="open: every issuer function on 1-3 (thorough 1-4) entities with issuer in {none, each entity incl. itself, an undefined alias}, spread over nested directories and suffix/case variants, "
              "with junk files (other suffixes, unparseable text, no version key, schema-invalid, wrong version, empty); 13 hand-written alias-collision and layout cases; 150 (thorough 3000) random directories "
              "with aliases from a 4-name pool; each directory is opened, planned and signed; non-trivial = at least one certificate generated or the hierarchy refused",
